@@ -253,9 +253,7 @@ class Body:
                 raise TranslateError("%s: _appendData inside a condition" % self.name)
         txt = src_text(n)
         key = (self.name, txt)
-        for i, (k, _, _, _) in enumerate(self.opaque):
-            if k == key:
-                return "(COpq %d)" % i
+        # every OCCURRENCE gets its own index: the object's state may change between two evaluations of the same text
         self.opaque.append((key, txt, members_read(n), line_of(n)))
         for m in member_writes(n):
             self.writes.append((self.name, m))
